@@ -99,10 +99,16 @@ func (r *Result) Sample(max int, v interface{}) {
 func (r *Result) Violate(sig, msg string, replay interface{}) {
 	r.mu.Lock()
 	r.vioCount[sig]++
-	if r.vioCount[sig] <= 5 {
+	first := r.vioCount[sig] <= 5
+	if first {
 		r.Violations = append(r.Violations, Violation{Sig: sig, Msg: msg, Replay: replay})
 	}
 	r.mu.Unlock()
+	if first {
+		// on disk at once: a run that later hangs or is ended by the watchdog has
+		// still reported what it saw
+		r.Save()
+	}
 }
 
 func (r *Result) Violatef(sig string, replay interface{}, format string, a ...interface{}) {
